@@ -190,6 +190,163 @@ theorem classify_spec {S : List Stmt} {syms : List Symbol} (h : parseModel S = .
     · exact ⟨c, hc, h1, hcn⟩
     · exact absurd (att _ ⟨c, hc, h1, hcn⟩) hno
 
+/-! ### Rejection -/
+
+/-- A name used with two kinds that cannot be merged: variable and parameter/error, parameter and error, … -/
+def KindConflict (S : List Stmt) : Prop :=
+  ∃ s1 ∈ scriptOcc S, ∃ s2 ∈ scriptOcc S, s1.name = s2.name ∧ s1.type ≠ s2.type ∧
+    ¬ (isVarKind s1.type = true ∧ isVarKind s2.type = true)
+
+/-- One name assigned by two statements whose normalised equations (or generated code) differ. -/
+def DoubleDef (S : List Stmt) : Prop :=
+  ∃ s1 ∈ scriptOcc S, ∃ s2 ∈ scriptOcc S, s1.name = s2.name ∧
+    ((∃ e1 e2, s1.equation = some e1 ∧ s2.equation = some e2 ∧ e1 ≠ e2) ∨
+     (∃ c1 c2, s1.code = some c1 ∧ s2.code = some c2 ∧ c1 ≠ c2))
+
+/-- **classify_rejects.**  A script in which a name is used both as a variable and as a parameter/error (or as a
+    parameter and an error), or in which one name is defined by two different equations, is not accepted. -/
+theorem classify_rejects {S : List Stmt} (w1 : WellIndexed S) (w2 : NoFunctionClash S)
+    (hbad : KindConflict S ∨ DoubleDef S) : ∃ e, parseModel S = .error e := by
+  cases h : parseModel S with
+  | error e => exact ⟨e, rfl⟩
+  | ok syms =>
+    exfalso
+    obtain ⟨D, V, rfl, hV, hk, hS, hE⟩ := accepted_char h w1 w2
+    rcases hbad with ⟨s1, h1, s2, h2, hn, ht, hv⟩ | ⟨s1, h1, s2, h2, hn, hd⟩
+    · obtain ⟨c, hc, hcn⟩ := hE s1 h1
+      have l1 := (hS c hc).typeLe s1 (List.mem_filter.2 ⟨h1, by simp [hcn]⟩)
+      have l2 := (hS c hc).typeLe s2 (List.mem_filter.2 ⟨h2, by simp [hcn, ← hn]⟩)
+      exact hv (typeLe_conflict l1 l2 ht)
+    · obtain ⟨c, hc, hcn⟩ := hE s1 h1
+      have m1 : s1 ∈ (scriptOcc S).filter (fun s => s.name = c.name) := List.mem_filter.2 ⟨h1, by simp [hcn]⟩
+      have m2 : s2 ∈ (scriptOcc S).filter (fun s => s.name = c.name) := List.mem_filter.2 ⟨h2, by simp [hcn, ← hn]⟩
+      rcases hd with ⟨e1, e2, he1, he2, hne⟩ | ⟨c1, c2, hc1, hc2, hne⟩
+      · have a := (hS c hc).eqAll s1 m1 e1 he1
+        have b := (hS c hc).eqAll s2 m2 e2 he2
+        rw [a] at b; exact hne (Option.some.inj b)
+      · have a := (hS c hc).codeAll s1 m1 c1 hc1
+        have b := (hS c hc).codeAll s2 m2 c2 hc2
+        rw [a] at b; exact hne (Option.some.inj b)
+
+/-- Which of the parser's own errors a single `combine` raises: SymbolError exactly for an unmergeable pair of kinds
+    (it is the first check), ParserError only for two different equations / code strings. -/
+theorem combine_error_class (a b : Symbol) (hn : a.name = b.name) :
+    (combine a b = .error .symbolError ↔
+      (a.type ≠ b.type ∧ ¬ (isVarKind a.type = true ∧ isVarKind b.type = true))) ∧
+    (combine a b = .error .parserError →
+      ((∃ e1 e2, a.equation = some e1 ∧ b.equation = some e2 ∧ e1 ≠ e2) ∨
+       (∃ c1 c2, a.code = some c1 ∧ b.code = some c2 ∧ c1 ≠ c2))) ∧
+    (combine a b ≠ .error .assertionError) := by
+  have hl : ∀ x y e, resolveLag x y = .error e → e = .typeError := by
+    intro x y e h; cases x <;> cases y <;> simp [resolveLag] at h <;> exact h.symm
+  have hd : ∀ x y e, resolveLead x y = .error e → e = .typeError := by
+    intro x y e h; cases x <;> cases y <;> simp [resolveLead] at h <;> exact h.symm
+  have hs : ∀ x y e, resolveStr x y = .error e → e = .parserError ∧ ∃ u v, x = some u ∧ y = some v ∧ u ≠ v := by
+    intro x y e h
+    cases x with
+    | none => cases y <;> simp [resolveStr] at h
+    | some u =>
+      cases y with
+      | none => simp [resolveStr] at h
+      | some v =>
+        simp only [resolveStr] at h
+        by_cases huv : u = v
+        · simp [huv] at h
+        · simp [huv] at h; exact ⟨h.symm, u, v, rfl, rfl, huv⟩
+  unfold combine
+  simp only [hn, if_true]
+  cases ht : combineType a.type b.type with
+  | error e =>
+    have he : e = .symbolError ∧ a.type ≠ b.type ∧ ¬ (isVarKind a.type = true ∧ isVarKind b.type = true) := by
+      unfold combineType at ht
+      by_cases hab : a.type = b.type
+      · simp [hab] at ht
+      · simp only [hab, if_false] at ht
+        by_cases hv : (isVarKind a.type && isVarKind b.type) = true
+        · simp [hv] at ht
+        · simp only [hv, if_false] at ht
+          refine ⟨by cases ht; rfl, hab, ?_⟩
+          simpa [Bool.and_eq_true] using hv
+    obtain ⟨rfl, h1, h2⟩ := he
+    simp [h1, h2]
+  | ok t =>
+    have hok : ¬ (a.type ≠ b.type ∧ ¬ (isVarKind a.type = true ∧ isVarKind b.type = true)) := by
+      rintro ⟨h1, h2⟩
+      unfold combineType at ht
+      simp only [h1, if_false] at ht
+      have : ¬ ((isVarKind a.type && isVarKind b.type) = true) := by simpa [Bool.and_eq_true] using h2
+      simp [this] at ht
+    cases hl' : resolveLag a.lags b.lags with
+    | error e =>
+      have := hl _ _ _ hl'; subst this
+      exact ⟨⟨fun h => by simp at h, fun h => absurd h hok⟩, fun h => by simp at h, by simp⟩
+    | ok l =>
+      cases hd' : resolveLead a.leads b.leads with
+      | error e =>
+        have := hd _ _ _ hd'; subst this
+        exact ⟨⟨fun h => by simp at h, fun h => absurd h hok⟩, fun h => by simp at h, by simp⟩
+      | ok d =>
+        cases hq : resolveStr a.equation b.equation with
+        | error e =>
+          obtain ⟨rfl, u, v, h1, h2, h3⟩ := hs _ _ _ hq
+          exact ⟨⟨fun h => by simp at h, fun h => absurd h hok⟩, fun _ => Or.inl ⟨u, v, h1, h2, h3⟩, by simp⟩
+        | ok q =>
+          cases hc : resolveStr a.code b.code with
+          | error e =>
+            obtain ⟨rfl, u, v, h1, h2, h3⟩ := hs _ _ _ hc
+            exact ⟨⟨fun h => by simp at h, fun h => absurd h hok⟩, fun _ => Or.inr ⟨u, v, h1, h2, h3⟩, by simp⟩
+          | ok c =>
+            exact ⟨⟨fun h => by simp at h, fun h => absurd h hok⟩, fun h => by simp at h, by simp⟩
+
+/-- Non-vacuity of the rejections, on term lists: `Y = {a}` / `Z = a` (SymbolError), `Y = X` / `Y = Z` (ParserError),
+    and the identical duplicate `Y = X` / `Y = X` (accepted, one symbol per name). -/
+example : parseModel [.eqn [⟨"Y", .endogenous, .int 0⟩, ⟨"a", .parameter, .int 0⟩] "Y[t] = a[t]" "c1",
+                      .eqn [⟨"Z", .endogenous, .int 0⟩, ⟨"a", .exogenous, .int 0⟩] "Z[t] = a[t]" "c2"]
+    = .error .symbolError := by rfl
+
+example : parseModel [.eqn [⟨"Y", .endogenous, .int 0⟩, ⟨"X", .exogenous, .int 0⟩] "Y[t] = X[t]" "c1",
+                      .eqn [⟨"Y", .endogenous, .int 0⟩, ⟨"Z", .exogenous, .int 0⟩] "Y[t] = Z[t]" "c2"]
+    = .error .parserError := by rfl
+
+example : (parseModel [.eqn [⟨"Y", .endogenous, .int 0⟩, ⟨"X", .exogenous, .int 0⟩] "Y[t] = X[t]" "c1",
+                       .eqn [⟨"Y", .endogenous, .int 0⟩, ⟨"X", .exogenous, .int 0⟩] "Y[t] = X[t]" "c1"]).toOption.map
+      (fun syms => syms.map (·.name)) = some [some "Y", some "X"] := by rfl
+
+/-! ### What the guard `NoFunctionClash` excludes -/
+
+/-- `Y = log + log(X)`: the variable `log` is first entered as EXOGENOUS and then *overwritten* by the function symbol
+    (`symbols[name] = symbol`). -/
+def clashWitness : List Stmt :=
+  [.eqn [⟨"Y", .endogenous, .int 0⟩, ⟨"log", .exogenous, .int 0⟩, ⟨"log", .function, .none⟩, ⟨"X", .exogenous, .int 0⟩]
+     "Y[t] = log[t] + log(X[t])" "self._Y[t] = self._log[t] + np.log(self._X[t])"]
+
+/-- **classify_spec without the guard is false**: the script is accepted, `log` occurs as a variable that no
+    statement assigns, yet it is in no class list (the generated code would read `self._log`). -/
+theorem classify_spec_false_at_witness :
+    ∃ syms, parseModel clashWitness = .ok syms ∧ WellIndexed clashWitness ∧ ¬ NoFunctionClash clashWitness ∧
+      Occurs clashWitness "log" .exogenous ∧ ¬ Occurs clashWitness "log" .endogenous ∧
+      some "log" ∉ namesOfType .exogenous syms ∧
+      some "log" ∉ namesOfType .endogenous syms ++ namesOfType .exogenous syms ++ namesOfType .parameter syms
+        ++ namesOfType .error syms := by
+  refine ⟨_, rfl, ?_, ?_, ?_, ?_, ?_, ?_⟩
+  · intro s hs
+    simp [scriptOcc, clashWitness, stmtOcc, termSyms, termSymbol] at hs
+    rcases hs with rfl | rfl | rfl | rfl <;> decide
+  · intro h
+    have := h ⟨some "log", .function, .none, .none, none, none⟩
+      (by simp [scriptOcc, clashWitness, stmtOcc, termSyms, termSymbol])
+      ⟨some "log", .exogenous, .int 0, .int 0, none, none⟩
+      (by simp [scriptOcc, clashWitness, stmtOcc, termSyms, termSymbol]) rfl rfl
+    cases this
+  · exact ⟨_, _, _, List.mem_singleton.2 rfl, ⟨"log", .exogenous, .int 0⟩, by simp, rfl, rfl⟩
+  · rintro ⟨ts, e, c, hst, t, ht, hn, htt⟩
+    simp [clashWitness] at hst
+    obtain ⟨rfl, _, _⟩ := hst
+    simp at ht
+    rcases ht with rfl | rfl | rfl | rfl <;> simp at hn htt
+  · decide
+  · decide
+
 /-! ### Ordering and partition -/
 
 /-- Names of the script's terms in script order (`some name` for every non-verbatim term). -/
